@@ -360,3 +360,86 @@ def _leaf_step_state(cfg: SimConfig, step):
         v = np.asarray(step.state.state_vector(), dtype=np.complex128)
         return _rho_of(v), v
     raise HarnessError(cfg.kind)
+
+
+def check_sweep(P: str, circuit, sweep, cfg: SimConfig, ctx, max_leaves: int, qubit_order=None,
+                ref_circuit_for=None, stats=None) -> int:
+    """simulate_sweep over a parameterised circuit: every sweep point is an independent simulation of the
+    resolved circuit (state must not leak between the copies of the simulation state made per point)."""
+    qubit_order = list(qubit_order or sorted(circuit.all_qubits()))
+    resolvers = list(cirq.to_resolvers(sweep))
+    refs = []
+    try:
+        for r in resolvers:
+            resolved = cirq.resolve_parameters(circuit, r)
+            rc = ref_circuit_for(resolved) if ref_circuit_for is not None else resolved
+            ref = QRef(qubit_order, record_channels=(cfg.kind != "dm"))
+            groups: Dict[Tuple, List] = {}
+            for b in ref.run(rc, 0):
+                k = _last_instance_key(b.record_key())
+                g = groups.setdefault(k, [0.0, None])
+                g[0] += b.prob
+                g[1] = b.prob * b.rho if g[1] is None else g[1] + b.prob * b.rho
+            refs.append(groups)
+    except Unsupported as e:
+        raise HarnessError(f"generator emitted something the reference does not model: {e}")
+    tol = cfg.tol()
+
+    def leaf(prng: ScriptedPRNG):
+        sim = cfg.make(prng)
+        out = []
+        for res in sim.simulate_sweep(circuit, params=sweep, qubit_order=qubit_order):
+            meas = tuple(sorted((k, tuple(int(x) for x in v)) for k, v in res.measurements.items()))
+            rho, _vec = _leaf_state(cfg, res, qubit_order)
+            out.append((meas, rho))
+        return out
+
+    try:
+        leaves = explore(leaf, max_leaves)
+    except TreeTooLarge:
+        ctx.probe("tree-too-large")
+        return 0
+    n = len(leaves)
+    _count_draws(leaves, stats, ctx)
+    for i in range(len(resolvers)):
+        got: Dict[Tuple, List] = {}
+        for w, out, _t in leaves:
+            meas, rho = out[i]
+            g = got.setdefault(meas, [0.0, None])
+            g[0] += w
+            g[1] = w * rho if g[1] is None else g[1] + w * rho
+        for k in sorted(set(got) | set(refs[i]), key=repr):
+            g = got.get(k, [0.0, None])
+            e = refs[i].get(k, [0.0, None])
+            if abs(g[0] - e[0]) > tol * max(4, math.sqrt(n)):
+                raise Violation(f"{P}-DIST", f"[{cfg.describe()} simulate_sweep] sweep point {i} ({resolvers[i]}): "
+                                             f"measurements {dict(k)} have probability {g[0]:.7f}, the resolved circuit "
+                                             f"simulated on its own gives {e[0]:.7f}\n{circuit}")
+            if g[1] is not None and e[1] is not None:
+                err = float(np.max(np.abs(g[1] - e[1])))
+                if err > tol * max(4, math.sqrt(n)):
+                    raise Violation(f"{P}-STATE", f"[{cfg.describe()} simulate_sweep] sweep point {i} ({resolvers[i]}): "
+                                                  f"final state differs from simulating the resolved circuit on its own "
+                                                  f"by {err:.3e} (measurements {dict(k)})\n{circuit}")
+    return n
+
+
+def check_mux_final_density_matrix(P: str, circuit, noise, dtype, ctx, qubit_order=None, initial_state=0,
+                                   ref_initial=None, ref_circuit=None) -> None:
+    """cirq.final_density_matrix(program, noise=...): no draws (measurements are dephased); one call."""
+    qubit_order = list(qubit_order or sorted(circuit.all_qubits()))
+    try:
+        ref = QRef(qubit_order, record_channels=False)
+        branches = ref.run(ref_circuit if ref_circuit is not None else circuit,
+                           initial_state if ref_initial is None else ref_initial)
+    except Unsupported as e:
+        raise HarnessError(f"generator emitted something the reference does not model: {e}")
+    want = sum(b.prob * b.rho for b in branches)
+    got = np.asarray(cirq.final_density_matrix(circuit, noise=noise, initial_state=initial_state,
+                                               qubit_order=qubit_order, dtype=dtype), dtype=np.complex128)
+    tol = 5e-5 if dtype == np.complex64 else 1e-6
+    check_rho_valid(P, got, tol * 4, "cirq.final_density_matrix")
+    err = float(np.max(np.abs(got - want)))
+    if err > tol * 8:
+        raise Violation(f"{P}-STATE", f"[cirq.final_density_matrix noise={noise!r} dtype={np.dtype(dtype).name}] differs "
+                                      f"from the reference channel evolution by {err:.3e}\n{circuit}")
